@@ -334,14 +334,16 @@ def check(pid, tier, seed):
         wall = time.time() - t0
         if os.environ.get('VERIF_NO_EVIDENCE'):
             print(f'property={pid} cases={done} violations={reported} (no evidence written: VERIF_NO_EVIDENCE)')
-            return 2 if harness_problem else (1 if reported else 0)
+            return 1 if reported else (2 if harness_problem else 0)
         ev = write_evidence(pid, tier, seed, eng, results, wall, reported, workers, known_hit, extra)
         c = ev['coverage']
         print(f"property={pid} cases={done} executions={c['evaluations']} distinct={c['distinct_nontrivial']} "
               f"violations={reported} invalid={c['invalid_workload_cases']} wall={wall:.1f}s", flush=True)
-        if harness_problem:
-            return 2
-        return 1 if reported else 0
+        # a violation confirmed by its replay decides the exit code; a replay that did not reproduce is reported
+        # (HARNESS-ERROR line) and makes the run exit 2 only if nothing else was confirmed
+        if reported:
+            return 1
+        return 2 if harness_problem else 0
     finally:
         shutil.rmtree(scratch, ignore_errors=True)
 
